@@ -52,6 +52,27 @@ def run(tier, seed, only=None):
             meta.append((i, site, z, p))
     # declared-name and key-set comparison on a feature project (structs, enum, channel, optional params)
     feat = feature_events(d)
+    # return / channel message / event payload: both modes emit TypeScript there - the two renderings of the same Rust
+    # item must agree, without and with a type-mapping table (mapped source names as leaves)
+    from lib.checks import c18
+    plain_small, _, _, _, _ = typecases.generate_types(tier, seed, d, cfg="Gen_Types_d1x", simulate=False, min_cases=50)
+    mapped_pairs, _, _, _, _ = typecases.generate_types(tier, seed, d, cfg="Gen_Types_mapped1", simulate=False, min_cases=20,
+                                                        keyf=lambda p: rustgen.canon(p["t"]))
+    families = [("plain", plain_small, None, ""), ("mapped", [p["t"] for p in mapped_pairs], {"type_mappings": c18.TABLE}, c18.EXTRA_SRC)]
+    agree = []
+    for fam, ftypes, cfg, extra_src in families:
+        fobs, ffail, fruns = typecases.observe_types(d, ftypes, sites=("ret", "chan", "event"), extra_cfg=cfg, extra_src=extra_src)
+        fby = {(o["idx"], o["site"], o["mode"]): o for o in fobs}
+        for i, t in enumerate(ftypes):
+            for site in ("ret", "chan", "event"):
+                zo = fby.get((i, site, "zod"))
+                po = fby.get((i, site, "none"))
+                if zo is None or po is None:
+                    continue
+                agree.append({"event": "ModesAgree", "case": "%s/%d/%s" % (fam, i, site), "family": fam, "site": site, "spelling": po["spelling"],
+                              "none": po["ts"], "zod": zo["ts"], "nnames": typecases.referenced_names(po["ts"]),
+                              "znames": typecases.referenced_names(zo["ts"]), "canon": rustgen.canon(t)})
+    feat = feat + agree
     rejected = set()
     validated = 0
     CH = 40000
@@ -82,7 +103,11 @@ def run(tier, seed, only=None):
     consumed, mism, r = C.validate_trace("Trace_Types", "Trace_Types", fpart, timeout=600)
     for m in mism:
         ev = feat[m[1] - 1]
-        if ev["event"] == "DeclNames":
+        if ev["event"] == "ModesAgree":
+            verdicts.reject("modes site=%s family=%s type=%s" % (ev["site"], ev["family"], ev["canon"]), "differs",
+                            "Rust type %s at site %s: plain mode emits `%s`, Zod mode emits `%s`" % (ev["spelling"], ev["site"], tsprint.show(ev["none"]), tsprint.show(ev["zod"])),
+                            {"case": ev["case"], "spelling": ev["spelling"]})
+        elif ev["event"] == "DeclNames":
             only_none = sorted(set(ev["none"]) - set(ev["zod"]))
             only_zod = sorted(set(ev["zod"]) - set(ev["none"]))
             verdicts.reject("declnames only_none=%s only_zod=%s" % (",".join(only_none), ",".join(only_zod)), "differs",
